@@ -91,6 +91,10 @@ fn scratch_dir() -> String {
 }
 
 fn spawn_worker(args: &Args, dir: &str, w: u64, n: u64, only: Option<(u64, u64)>, tag: &str) -> std::io::Result<WorkerRun> {
+    spawn_worker_x(args, dir, w, n, only, None, tag)
+}
+
+fn spawn_worker_x(args: &Args, dir: &str, w: u64, n: u64, only: Option<(u64, u64)>, until: Option<(u64, u64)>, tag: &str) -> std::io::Result<WorkerRun> {
     let exe = std::env::current_exe()?;
     let out_path = format!("{dir}/{tag}{w}.out");
     let err_path = format!("{dir}/{tag}{w}.err");
@@ -101,7 +105,14 @@ fn spawn_worker(args: &Args, dir: &str, w: u64, n: u64, only: Option<(u64, u64)>
     if let Some((o, c)) = only {
         cmd.arg("--only").arg(format!("{o}:{c}"));
     }
+    if let Some((o, c)) = until {
+        cmd.arg("--until").arg(format!("{o}:{c}"));
+    }
     cmd.env("VERIF_SEED", format!("{}", args.seed as i64));
+    // Every ontology build allocates and frees blocks of 12 MB and 80 MB. Keep glibc's mmap threshold fixed:
+    // with the default dynamic threshold one large free (a 70 000-term ontology) moves those blocks onto the
+    // brk heap for the rest of the process and makes every later build ~200x slower.
+    cmd.env("MALLOC_MMAP_THRESHOLD_", "1048576");
     cmd.env("VERIF_BUDGET_S", format!("{}", args.budget.as_secs()));
     cmd.stdin(Stdio::null()).stdout(out).stderr(err);
     let child = cmd.spawn()?;
@@ -311,7 +322,22 @@ fn rerun_case(args: &Args, dir: &str, ord: u64, case: u64, tag: &str) -> Result<
     }
 }
 
+/// Re-run a worker's whole share up to and including one case (for violations that depend on what the same
+/// process executed before: state leaking between calls).
+fn rerun_prefix(args: &Args, dir: &str, w: u64, n: u64, ord: u64, case: u64, tag: &str) -> Result<Option<Vec<Violation>>, String> {
+    let wr = spawn_worker_x(args, dir, w, n, None, Some((ord, case)), tag).map_err(|e| e.to_string())?;
+    match wait_worker(wr, Instant::now() + args.budget + Duration::from_secs(600)) {
+        Outcome::Report(r) => Ok(Some(r["violations"].as_array().map(|a| a.iter().map(Violation::from_json).collect()).unwrap_or_default())),
+        Outcome::Died { .. } => Ok(None),
+        Outcome::Harness(m) => Err(m),
+    }
+}
+
 fn write_replay(args: &Args, v: &Violation) -> String {
+    write_replay_mode(args, v, "single")
+}
+
+fn write_replay_mode(args: &Args, v: &Violation, mode: &str) -> String {
     let dir = format!("{VERIF_DIR}/replays/{}", args.id);
     let _ = std::fs::create_dir_all(&dir);
     let h = crate::ctx::fnv_str(&format!("{}|{}|{}|{}", v.key(), v.space, v.case, args.tier.name()));
@@ -319,6 +345,7 @@ fn write_replay(args: &Args, v: &Violation) -> String {
     let body = json!({
         "property": args.id, "tier": args.tier.name(), "seed": args.seed as i64,
         "space": v.space, "space_ordinal": v.space_ordinal, "case": v.case,
+        "replay_mode": mode, "worker": v.worker, "nworkers": v.nworkers,
         "site": v.site, "signature": v.signature, "occurrences": v.count, "detail": v.detail,
         "how_to_replay": format!("./check {} --replay {}", args.id, path),
     });
@@ -381,6 +408,8 @@ pub fn supervise(args: &Args) -> i32 {
                     (Ok(None), Ok(None)) => {
                         let space = merged.spaces.get(ord as usize).and_then(|s| s["name"].as_str()).unwrap_or("?").to_string();
                         let v = Violation {
+                            worker: *w,
+                            nworkers: n,
                             space,
                             space_ordinal: ord,
                             case,
@@ -437,15 +466,27 @@ pub fn supervise(args: &Args) -> i32 {
             confirmed.push((v.clone(), write_replay(args, v)));
             continue;
         }
+        // Isolated re-execution in fresh processes. Same (site, signature) twice = confirmed. The library hashes
+        // with per-process random keys; if the case violates the property again but with another signature (or only
+        // in some runs), it is confirmed as intermittent after two of up to four re-executions show a violation.
         let mut ok = 0;
-        for round in 0..2 {
+        let mut any = 0;
+        for round in 0..4 {
+            if round >= 2 && (ok >= 2 || any == 0) {
+                break;
+            }
             match rerun_case(args, &dir, v.space_ordinal, v.case, &format!("c{round}_")) {
                 Ok(Some(vs)) => {
                     if vs.iter().any(|x| x.key() == v.key()) {
                         ok += 1;
                     }
+                    if !vs.is_empty() {
+                        any += 1;
+                    }
                 }
-                Ok(None) => {}
+                Ok(None) => {
+                    any += 1; // died: the case does not complete
+                }
                 Err(m) => {
                     eprintln!("machinery: {m}");
                     let _ = std::fs::remove_dir_all(&dir);
@@ -453,12 +494,42 @@ pub fn supervise(args: &Args) -> i32 {
                 }
             }
         }
-        if ok == 2 {
+        if ok >= 2 {
             confirmed.push((v.clone(), write_replay(args, v)));
+        } else if any >= 2 {
+            let mut hv = v.clone();
+            hv.signature = format!("{} [intermittent: the same case violates the property in repeated fresh runs, but not always with this signature - the outcome depends on hash iteration order inside the library]", v.signature);
+            let path = write_replay(args, &hv);
+            confirmed.push((hv, path));
         } else {
-            eprintln!("machinery: violation {} at {}:{} did not reproduce in isolated re-execution ({}/2): nondeterministic replay", v.key(), v.space, v.case, ok);
-            let _ = std::fs::remove_dir_all(&dir);
-            return 2;
+            // Not reproducible in isolation: does it reproduce when the same process first executes the cases it
+            // executed before (same shard, same order)? Then the subject keeps state between calls.
+            let mut okp = 0;
+            for round in 0..2 {
+                match rerun_prefix(args, &dir, v.worker, v.nworkers, v.space_ordinal, v.case, &format!("p{round}_")) {
+                    Ok(Some(vs)) => {
+                        if vs.iter().any(|x| x.key() == v.key()) {
+                            okp += 1;
+                        }
+                    }
+                    Ok(None) => {}
+                    Err(m) => {
+                        eprintln!("machinery: {m}");
+                        let _ = std::fs::remove_dir_all(&dir);
+                        return 2;
+                    }
+                }
+            }
+            if okp == 2 {
+                let mut hv = v.clone();
+                hv.signature = format!("{} [history-dependent: only after the earlier cases of the same process - the library keeps state between calls]", v.signature);
+                let path = write_replay_mode(args, &hv, "prefix");
+                confirmed.push((hv, path));
+            } else {
+                eprintln!("machinery: violation {} at {}:{} did not reproduce in isolated re-execution ({}/2) nor after replaying the worker's earlier cases ({}/2): nondeterministic replay", v.key(), v.space, v.case, ok, okp);
+                let _ = std::fs::remove_dir_all(&dir);
+                return 2;
+            }
         }
     }
     let _ = std::fs::remove_dir_all(&dir);
@@ -516,6 +587,12 @@ pub fn supervise(args: &Args) -> i32 {
         eprintln!("machinery: cannot write evidence: {e}");
         return 2;
     }
+    if args.tier.thorough() {
+        // keep the last thorough run next to the per-run file (which a later quick run overwrites)
+        let tdir = format!("{evdir}/thorough");
+        let _ = std::fs::create_dir_all(&tdir);
+        let _ = std::fs::write(format!("{tdir}/{}.json", args.id), serde_json::to_string_pretty(&evidence).unwrap() + "\n");
+    }
     if sum("executions") == 0 || sum("states") == 0 {
         eprintln!("machinery: vacuous run (no executions)");
         return 2;
@@ -535,6 +612,9 @@ pub fn supervise(args: &Args) -> i32 {
         exhaustive,
         wall
     );
+    if !capped.is_empty() {
+        println!("NOTE: not exhaustive in this run (wall budget reached or deliberately partial): {}", capped.join(", "));
+    }
     for l in &known_lines {
         println!("{l}");
     }
@@ -575,13 +655,26 @@ pub fn replay(args: &Args, path: &str) -> i32 {
         replay: None,
         worker: None,
         only: None,
+        until: None,
         seed: v["seed"].as_i64().unwrap_or(0) as u64,
         budget: args.budget,
         workers: 1,
     };
     let (ord, case) = (v["space_ordinal"].as_u64().unwrap_or(0), v["case"].as_u64().unwrap_or(0));
     let dir = scratch_dir();
-    let r = rerun_case(&a, &dir, ord, case, "r_");
+    let r = if v["replay_mode"].as_str() == Some("prefix") {
+        rerun_prefix(&a, &dir, v["worker"].as_u64().unwrap_or(0), v["nworkers"].as_u64().unwrap_or(1), ord, case, "r_")
+    } else {
+        // an intermittent violation (hash-order dependent) may need several fresh runs to show again
+        let mut last = rerun_case(&a, &dir, ord, case, "r_");
+        for round in 0..3 {
+            match &last {
+                Ok(Some(vs)) if vs.is_empty() => last = rerun_case(&a, &dir, ord, case, &format!("r{round}_")),
+                _ => break,
+            }
+        }
+        last
+    };
     let _ = std::fs::remove_dir_all(&dir);
     let known = load_known().unwrap_or_default();
     match r {
